@@ -771,7 +771,8 @@ func checkC20(c *core.Ctx) {
 		sc := sc
 		b := bound
 		c.Case(fmt.Sprintf("sched/%s", sc.name(bs)), true, func() core.Verdict {
-			return c20RunScenario(c, sc, b, maxExec)
+			v := c20RunScenario(c, sc, b, maxExec)
+			return v
 		})
 	}
 }
